@@ -571,6 +571,12 @@ func (fl *Flow) condInto(fs *FactSet, cond ast.Expr, val bool) {
 			if val {
 				fl.condInto(fs, x.X, true)
 				fl.condInto(fs, x.Y, true)
+			} else {
+				// ¬(A ∧ B): kept as a fact of its own; once one conjunct is known to hold the
+				// other is known to fail (resolveDisjunctions)
+				f := fl.mkFact(&Fact{Kind: FCond, Cond: cond, Val: false, Origin: origin}, cond)
+				f.raw = fmt.Sprintf("cond:%s=%v", fl.raw.canon(cond), false)
+				fs.add(f)
 			}
 			return
 		case token.LOR:
@@ -1151,6 +1157,7 @@ func (fl *Flow) edgeInto(fs *FactSet, b *cfg.Block, i int) {
 	if t := fl.info.TypeOf(last); t != nil {
 		if bt, ok := t.Underlying().(*types.Basic); ok && bt.Info()&types.IsBoolean != 0 {
 			fl.condInto(fs, last, i == 0)
+			fl.resolveDisjunctions(fs)
 		}
 	}
 }
@@ -1485,4 +1492,55 @@ func fieldNamed(n *types.Named, name string) *types.Var {
 		}
 	}
 	return nil
+}
+
+
+// evalAtom: is the comparison e known to hold (1), known to fail (0) or unknown (-1) under fs?
+// Only equalities against nil and kind constants are looked up (the facts tag and nil tests leave).
+func (fs *FactSet) evalAtom(e ast.Expr) int {
+	be, ok := ast.Unparen(e).(*ast.BinaryExpr)
+	if !ok || (be.Op != token.EQL && be.Op != token.NEQ) {
+		return -1
+	}
+	l, r := fs.canon(be.X), fs.canon(be.Y)
+	res := -1
+	fs.eqFacts(func(fl, fr string, val bool, f *Fact) {
+		if (fl == l && fr == r) || (fl == r && fr == l) {
+			if val == (be.Op == token.EQL) {
+				res = 1
+			} else {
+				res = 0
+			}
+		}
+	})
+	return res
+}
+
+// resolveDisjunctions: from ¬(A ∧ B) and A derive ¬B (and symmetrically).
+func (fl *Flow) resolveDisjunctions(fs *FactSet) {
+	for round := 0; round < 3; round++ {
+		changed := false
+		for _, k := range sortedKeys(fs.m) {
+			f := fs.m[k]
+			if f == nil || f.Kind != FCond || f.Val {
+				continue
+			}
+			be, ok := ast.Unparen(f.Cond).(*ast.BinaryExpr)
+			if !ok || be.Op != token.LAND {
+				continue
+			}
+			a, b := fs.evalAtom(be.X), fs.evalAtom(be.Y)
+			switch {
+			case a == 1 && b == -1:
+				fl.condInto(fs, be.Y, false)
+				changed = true
+			case b == 1 && a == -1:
+				fl.condInto(fs, be.X, false)
+				changed = true
+			}
+		}
+		if !changed {
+			return
+		}
+	}
 }
